@@ -25,6 +25,10 @@ RULE = ("Hypothesis-generated process chains of depth 1..12 built by the harness
         "position, name class)")
 
 NAMECH = b"abcdefghijklmnopqrstuvwxyzABCDEFGHIJKLMNOPQRSTUVWXYZ0123456789 ()-._"
+try:
+    PID1 = open("/proc/1/comm", "rb").read().rstrip(b"\n") or b"init"      # the top of every chain: listed in a share of the cases
+except OSError:
+    PID1 = b"init"
 
 
 def strategy():
@@ -39,7 +43,7 @@ def strategy():
         if draw(st.sampled_from([False] * 7 + [True])):
             chain[draw(st.integers(0, depth - 1))] = b""
         leaf = draw(st.one_of(name, st.sampled_from(chain)))
-        pool = [c for c in chain if c] + [leaf] + [b"execdrv", b"python3", b"nosuch", b"", b"sh"]
+        pool = [c for c in chain if c] + [leaf] + [b"execdrv", b"python3", b"nosuch", b"", b"sh", PID1, PID1]
         for c in chain[:4]:
             if c:
                 pool += [c[:-1], c + b"x", c.lower(), c + b" "]
@@ -61,7 +65,7 @@ def strategy():
             dist = draw(st.integers(1, depth))
             newname = draw(st.one_of(st.sampled_from([i for i in items if i and len(i) <= 15] or [b"zz"]), st.sampled_from(chain), name))
             steps.append((dist, newname or b"renamed"))
-        return {"chain": chain, "leaf": leaf, "items": items, "steps": steps,
+        return {"chain": chain, "leaf": leaf, "items": items, "steps": steps, "stdin": draw(st.sampled_from([None, None, None, "closed", "null"])),
                 "pre_errno": [draw(st.sampled_from([0, 0, 0, 34, 34, 4, 22])) for _ in range(len(steps) + 1)]}
     return case()
 
@@ -80,8 +84,8 @@ def evaluate(env, c):
     steps = c.get("steps", [])
     pre = c.get("pre_errno", [0] * (len(steps) + 1))
     one = lambda k: [drv.op("Q"), drv.op("e", pre[k]), drv.op_exec("e", b"/bin/x", [b"x"], [], ret=-1, err=2), drv.op("G")]
-    ops = [drv.op("x", out + "/log"), drv.op("W", "log", out + "/log"), drv.op("C", ini),
-           drv.op("F", *c["chain"]), drv.op("N", c["leaf"])] + one(0)
+    ops = [drv.op("x", out + "/log"), drv.op("W", "log", out + "/log"), drv.op("C", ini)] + \
+          ([drv.op("S", 0, c["stdin"])] if c.get("stdin") else []) + [drv.op("F", *c["chain"]), drv.op("N", c["leaf"])] + one(0)
     for k, (dist, newname) in enumerate(steps):
         ops += [drv.op("a", dist, newname)] + one(k + 1)
     res = d.scenario(ops)
@@ -137,6 +141,7 @@ def classify(c):
             if any(a in names for a in cur if a) != v0:
                 flips = True
     for flag, n in ((selfonly, "self-only"), (special, "special-chars"), (near, "prefix-near-miss"), (b"" in chain, "empty-named-ancestor"),
+                    (PID1 in items, "pid-1-listed"), (bool(c.get("stdin")), "stdin:" + str(c.get("stdin"))),
                     (bool(st_), "history:ancestor-renamed-between-calls"), (flips, "history:verdict-changes"), (any(c.get("pre_errno", [])), "caller-errno-set")):
         if flag:
             cls.append(n)
